@@ -3,6 +3,8 @@ CONSTANTS
   NChunks = 32
   Alphabet = {}
   MaxShort = 0
+  Alphabet2 = {}
+  MaxShort2 = 0
   RunBytes = {}
   RunCounts = {}
   SepBytes = {}
